@@ -84,6 +84,16 @@ class SuperOperator(BasisManaged):
     
     def __init__(self, dim=None, data=None, real=False):
         
+        # the data are checked before anything is registered: a refused
+        # construction must not leave a half-built object with the context
+        if (dim is None) and (data is not None):
+            if len(data.shape) != 4:
+                raise Exception("The data do not represent a superoperator")
+            Nd = data.shape[0]
+            if numpy.any(numpy.array(data.shape) - Nd):
+                raise Exception("`data` has to be `square` "+
+                                "four-dimensional matrix")
+
         # Set the currently used basis
         cb = self.manager.get_current_basis()
         self.set_current_basis(cb)
@@ -103,12 +113,6 @@ class SuperOperator(BasisManaged):
                                         dtype=qr.COMPLEX)
         elif data is not None:
             self.data = data
-            if len(data.shape) != 4:
-                raise Exception("The data do not represent a superoperator")
-            Nd = data.shape[0]
-            if numpy.any(numpy.array(data.shape) - Nd):
-                raise Exception("`data` has to be `square` "+
-                                "four-dimensional matrix")
             self.dim = data.shape[0]
       
 
@@ -278,6 +282,11 @@ class SuperOperator(BasisManaged):
         --------
         
         """
+        # a superoperator which has not received any data yet has nothing 
+        # to transform
+        if getattr(self, "_data", None) is None:
+            return
+
         if (self.manager.warn_about_basis_change):
             print("\nQr >>> SuperOperator "+
                   "'%s' changes basis" %self.name)
